@@ -63,6 +63,11 @@ CHECKS = {
    text="Every serializable method (44 kinds + 15 MA kinds), 36 indicator instances and all 37 configurations: snapshot at generated points (every ring phase of short windows, window-less variants), JSON text, restore, identical re-serialization, bit-identical outputs/peeks on the continuation, equal final state. Adversarial Window<u32> and SMM JSON: Err, or Ok equal to the model rotation of the buffer; valid data must be accepted; no panic.",
    note="Format: serde_json with float_roundtrip (bit-exact finite floats). Snapshots containing a non-finite float are skipped and counted. Example's instance type has no serde impl.",
    ref="DESIGN.md §5 C13"),
+ "C09": dict(
+   technique="PBT differential between API paths (element-wise next as reference) + Vec/inner-instance models for the wrappers + replay twin for clones",
+   text="All 44 method types (statically instantiated) and all 37 indicators: over/call/apply in generated chunkings incl. empty chunks, new_over/new_apply (empty => Ok(empty)), into_fn/new_fn, IndicatorConfig::over/init_fn, IndicatorInstance::over/into_fn bit-identical to element-wise next with exactly one output per input; WithHistory vs a Vec model, WithLastValue vs an inner instance fed the initial value once; clones fed a different continuation than the original, both equal to replayed twins; peek() = value just produced for all 30 Peekable impls.",
+   note="Known finding: Past::peek returns the newest input (known_findings.txt). Methods with dyn OHLCV or pair input have no Sequence-based batch API.",
+   ref="DESIGN.md §5 C09"),
 }
 
 PENDING = {
